@@ -767,6 +767,11 @@ class Explorer:
                         self.write_place(st, fr, lhs, val, site)
                 elif k == "dead":
                     root = fr.root(s["l"])
+                    v0 = st.heap.get((root, ()))
+                    if v0 is not None and v0[0] == "arr" and all(x[0] == "c" for x in v0[1]):
+                        # a constant array literal borrowed as `&[..]` is promoted to a static after this MIR phase: the
+                        # reference taken before StorageDead stays valid (`opt.map_or(&[], ..)`)
+                        continue
                     for kk in [kk for kk in st.heap if kk[0] == root]:
                         del st.heap[kk]
                 elif k == "setdiscr":
@@ -1064,6 +1069,13 @@ class Explorer:
             return "stop"
         fr.bb = target
         return "ok"
+
+    def fn_item_of(self, st, v):
+        """Path of the function item a value denotes (directly or behind a reference), else None."""
+        for _ in range(2):
+            if v[0] == "ref":
+                v = self.read_loc(st, v[1], v[2])
+        return v[1] if v[0] == "fn" else None
 
     def closure_of(self, st, v):
         if v[0] == "closure":
@@ -1542,6 +1554,29 @@ class Explorer:
         r_cs = self.cseq_model(st, stack, fr, info, path, p, args, dest, target, site)
         if r_cs is not None:
             return r_cs
+        # ---- arithmetic on primitive integers through the operator traits (`a + &b`, `x += &y`): the same operation as the
+        #      MIR binary operator, with the same overflow obligation (core's impls inherit the caller's overflow checks)
+        mprim = PRIM_OP_RE.match(path) if isinstance(path, str) else None
+        if mprim and len(args) == 2:
+            ty, opn = mprim.group(1), mprim.group(2)
+            assign = opn.endswith("_assign")
+            op = {"add": "Add", "sub": "Sub", "mul": "Mul"}[opn.replace("_assign", "")]
+            a_, b_ = args
+            tgt = a_ if assign else None
+            for _ in range(2):
+                if a_[0] == "ref":
+                    a_ = self.read_loc(st, a_[1], a_[2])
+                if b_[0] == "ref":
+                    b_ = self.read_loc(st, b_[1], b_[2])
+            r_ = self.binop(st, op, a_, b_)
+            if not (a_[0] == "c" and b_[0] == "c"):
+                st.effects.append(("assert", "overflow", site, "open", (op, None, (a_, b_), (ty, ty)), dict(st.cons)))
+            if assign:
+                if tgt[0] != "ref":
+                    return None
+                self.write_loc(st, tgt[1], tgt[2], r_)
+                return ret(UNIT())
+            return ret(r_)
         # ---- Vec<GenericEvent> words
         if p == "std::vec::Vec::<T>::new" or p == "std::vec::Vec::<T>::with_capacity":
             if tracked_elem(info["targs"][0]):
@@ -1595,9 +1630,34 @@ class Explorer:
                     items = sv[1] if sv[0] == "vec" else (("nested", sv),)
                 else:
                     items = (("slice", ("loc", src[1], src[2]) if src[0] == "ref" else src),)
+                    if src[0] == "ref":
+                        sv0 = self.read_loc(st, src[1], src[2])
+                        if sv0[0] == "arr" and not sv0[1]:
+                            items = ()                      # `&[]`: nothing is appended
                 base = cur[1] if cur[0] == "vec" else (("evs?", cur),)
                 self.write_loc(st, tgt[1], tgt[2], ("vec", base + items))
                 return ret(UNIT())
+            return None
+        if p == "std::slice::<impl [T]>::concat" and len(args) == 1:
+            # [part, part, ..].concat(): the parts in order (a part that is itself a tracked vector contributes its items)
+            a0 = args[0]
+            arrv = self.read_loc(st, a0[1], a0[2]) if a0[0] == "ref" else a0
+            if arrv[0] == "ref":
+                arrv = self.read_loc(st, arrv[1], arrv[2])
+            if arrv[0] == "arr":
+                items = ()
+                for el in arrv[1]:
+                    if el[0] == "ref":
+                        pv = self.read_loc(st, el[1], el[2])
+                        if pv[0] == "vec":
+                            items += tuple(pv[1])
+                        elif pv[0] == "arr" and not pv[1]:
+                            pass
+                        else:
+                            items += (("slice", ("loc", el[1], el[2])),)
+                    else:
+                        items += (("slice", el),)
+                return ret(("vec", items))
             return None
         if p == "std::slice::<impl [T]>::to_vec" and tracked_elem(info["targs"][0]):
             a0 = args[0]
@@ -1870,6 +1930,29 @@ class Explorer:
                 self.finish_path(st, None, "diverge")
                 return "stop"
             return ("fork", alts)
+        # ---- bool::then_some(x): Some(x) when the flag is set, None otherwise
+        if p == "std::bool::<impl bool>::then_some" and len(args) == 2:
+            OPT = "std::option::Option"
+            cond = args[0]
+            alts = []
+            for truth, val in ((True, AGG(OPT, "Some", (args[1],))), (False, AGG(OPT, "None"))):
+                s2 = st.clone()
+                r = self.eval_bool(s2, cond)
+                if isinstance(r, bool):
+                    if r != truth:
+                        continue
+                elif not self.assume_bool(s2, r, truth):
+                    continue
+                k2 = self.clone_stack(stack)
+                self.write_place(s2, k2[-1], dest, val, site)
+                if target is None:
+                    continue
+                k2[-1].bb = target
+                alts.append((s2, k2))
+            if not alts:
+                self.finish_path(st, None, "diverge")
+                return "stop"
+            return ("fork", alts)
         # ---- split_at: (&x[..n], &x[n..]); its precondition n <= len is an obligation of the panic ledger (STD_PANICS)
         if p in ("std::slice::<impl [T]>::split_at", "std::slice::<impl [T]>::split_at_mut") and len(args) == 2:
             base, n_ = args[0], args[1]
@@ -2007,6 +2090,44 @@ class Explorer:
                             continue
                         k2[-1].bb = target
                         alts.append((s2, k2))
+                if not alts:
+                    self.finish_path(st, None, "diverge")
+                    return "stop"
+                return ("fork", alts)
+            return None
+        if (p in ("std::option::Option::<T>::iter", "std::option::Option::<T>::iter_mut") or
+                (name == "into_iter" and isinstance(path, str) and "std::option::Option<T>" in path and "IntoIterator" in path)) and len(args) == 1:
+            # an Option iterated as a sequence of zero or one element (`bufs.extend(self.reason_code.iter().map(..))`)
+            OPT = "std::option::Option"
+            a0 = args[0]
+            byref = a0[0] == "ref"
+            v = self.read_loc(st, a0[1], a0[2]) if byref else a0
+            if byref and v[0] == "ref":
+                a0, v = v, self.read_loc(st, v[1], v[2])
+
+            def seq_for(s_, variant):
+                if variant == "None":
+                    cs = self.cseq_new(s_, "opt", [])
+                elif byref:
+                    cs = self.cseq_new(s_, "opt", [("ref", a0[1], a0[2] + (("dc", "Some"), ("f", 0, None)))])
+                else:
+                    cs = self.cseq_new(s_, "opt", [v[3][0] if v[0] == "agg" else SYM(self.cap(("field", v[1], 0)))])
+                return ("citer", cs[1], cs[2], 0, (), False)
+            if v[0] == "agg" and v[1] == OPT:
+                return ret(seq_for(st, v[2]))
+            if v[0] == "sym":
+                dt = ("discr", v[1], OPT)
+                alts = []
+                for variant in ("Some", "None"):
+                    s2 = st.clone()
+                    if not self.constrain(s2, dt, "eq", self.variant_discr(OPT, variant)):
+                        continue
+                    k2 = self.clone_stack(stack)
+                    self.write_place(s2, k2[-1], dest, seq_for(s2, variant), site)
+                    if target is None:
+                        continue
+                    k2[-1].bb = target
+                    alts.append((s2, k2))
                 if not alts:
                     self.finish_path(st, None, "diverge")
                     return "stop"
@@ -2158,6 +2279,8 @@ class Explorer:
                 "std::result::Result::<T, E>::unwrap_or_else": ("res", "unwrap_or_else_r"), "std::result::Result::<T, E>::and_then": ("res", "and_then_r")}
         if p in COMB and self.closure_of(st, args[-1]) is not None and self.closure_of(st, args[-1])[1] in self.F.fns:
             return self.combinator(st, stack, fr, COMB[p], args, t, site, info, path)
+        if p in COMB and self.fn_item_of(st, args[-1]) is not None and p != "std::option::Option::<T>::map_or_else":
+            return self.combinator(st, stack, fr, COMB[p], args, t, site, info, path)
         if p in ("std::option::Option::<T>::map", "std::result::Result::<T, E>::map") and len(args) == 2 and args[1][0] == "fn":
             # x.map(f) with a function item: the variant is the receiver's, the payload is f(payload)
             adt = "std::option::Option" if "option" in p else "std::result::Result"
@@ -2206,7 +2329,8 @@ class Explorer:
         recv = args[0]
         clo_arg = args[-1]
         clo = self.closure_of(st, clo_arg)
-        callee = self.F.fns[clo[1]]
+        fnitem = None if clo is not None else self.fn_item_of(st, clo_arg)
+        callee = self.F.fns[clo[1]] if clo is not None else self.F.fns.get(fnitem)
         OPT, RES = "std::option::Option", "std::result::Result"
         adt = OPT if fam == "opt" else RES
         # which variant runs the closure, and what the other variant yields
@@ -2270,6 +2394,23 @@ class Explorer:
                     return "stop"
                 fr3.bb = target
                 return None
+            if fnitem is not None:
+                # a function item in the closure's place (`opt.map_or(0, MqttString::size)`): the same as calling it on the payload
+                finfo = {"path": fnitem, "name": fnitem.split("::")[-1], "targs": [], "local": callee is not None,
+                         "impl_self": (callee or {}).get("impl_self", "")}
+                if callee is not None and self.inline_pred(self, callee, finfo) and len(k2) < 12:
+                    self.enter(s2, k2, k2[-1], callee, payload, None, None, cont)
+                    alts.append((s2, k2))
+                    continue
+                argterms = tuple(self.deref(s2, a) if a[0] == "ref" else a for a in payload)
+                rv = SYM(self.cap(("call", fnitem, argterms)))
+                s2.effects.append(("call", fnitem, tuple(payload), argterms, rv, site))
+                self.write_place(s2, k2[-1], dest, wrap(rv), site)
+                if target is None:
+                    continue
+                k2[-1].bb = target
+                alts.append((s2, k2))
+                continue
             self.enter(s2, k2, k2[-1], callee, [clo_arg] + payload, None, None, cont, closure=True)
             alts.append((s2, k2))
         if not alts:
@@ -2346,6 +2487,7 @@ class Explorer:
         self.enter(st, stack, fr, callee, cargs, None, None, cont, closure=True)
 
 
+PRIM_OP_RE = re.compile(r"^<&?(?:'\w+ )?(u8|u16|u32|u64|u128|usize|i8|i16|i32|i64|i128|isize) as std::ops::(?:Add|Sub|Mul)(?:Assign)?<&?(?:'\w+ )?\1>>::(add|sub|mul|add_assign|sub_assign|mul_assign)$")
 SNAP_RE = re.compile(r"(::index(_mut)?$)|(::copy_from_slice$)|(ArcPayload::new$)|(::split_at(_mut)?$)|(Vec::<T, A>::(remove|swap_remove|insert|split_off)$)|(::clone_from_slice$)|(^std::ops::(Add::add|Sub::sub|Mul::mul)$)|(^core::panicking::)|(^std::panicking::)")
 
 
